@@ -2,6 +2,7 @@
 # usage (cwd = /verif/coq): ../tools/coq_make.sh theories/Properties_C15.vo ...   (no args: everything)
 # Full .vo build (never -vos/-vok), make -k so that independent files still build when one proof breaks.
 cd "$(dirname "$0")/../coq"
+mkdir -p ../.build; exec 8>../.build/.lock.coqmake; flock 8
 { echo "-Q theories GeosV"; echo "-arg -w -arg -notation-overridden,-deprecated-hint-without-locality,-deprecated-instance-without-locality,-ambiguous-paths,-deprecated-hint-rewrite-without-locality"; find theories -name '*.v' | sort; } > _CoqProject.new
 if ! cmp -s _CoqProject.new _CoqProject || [ ! -f Makefile.coq ]; then
   mv _CoqProject.new _CoqProject
